@@ -19,6 +19,21 @@ CHECKS = {
              "<=2 groups, one 3-line layout with/without an annotated line.",
         technique="symbolic execution of the real scheduler with z3 (ranges symbolic), clause-wise assertions, replay",
     ),
+    "C12": dict(
+        category="model_checking",
+        text="Bounded symbolic model checking of the real matcher: (a) core._match_list on words of symbolic letters "
+             "against every quantifier template up to length 3 (thorough 4) with z3's sequence-regex theory (InRe) as "
+             "oracle; (b) named wildcards as back-references against a disjunction over segmentations; (c)/(d) "
+             "compile_template + match_template + finditer on parsed code whose integer constants are marker literals "
+             "(solver variables), against an independently written structural matcher that returns a z3 formula, at "
+             "every node / statement window of the source (completeness and 'nothing else'), plus self-matching.",
+        design_ref="DESIGN.md section 4 / C12",
+        note="Trusted: z3 (incl. its regex theory), proxies, the ~120-line reference matcher in vk/harness/c12.py written "
+             "from the statement. For *named* ?,*,+ wildcards the statement admits two readings (elements arbitrary / "
+             "all the same tree); the check demands only what both imply. Bounded: template and word lengths, the "
+             "enumerated pattern/source shapes; patterns that are a single wildcard are outside.",
+        technique="symbolic execution of the real matcher with z3 (letters / constants symbolic) vs regex theory and a reference matcher",
+    ),
     "C15": dict(
         category="model_checking",
         text="Bounded symbolic model checking of the real core.literal_value: every expression shape of depth 1 "
